@@ -943,11 +943,40 @@ func c13worldChecks(c *vf.Ctx, w *gcsWorld) {
 	// length not a multiple of 8) whose only matching item is the very last one
 	if N >= 5000 && len(nonm) > nHost+8 {
 		pb := nonm[nHost:]
-		for _, sz := range []int{65536 + 1 + r.Intn(7), 100003 + r.Intn(5)} {
+		szs := []int{65536 + 1 + r.Intn(7), 100003 + r.Intn(5), 1<<18 + 1 + r.Intn(7)}
+		if x.c.Tier == vf.Thorough {
+			szs = append(szs, 1<<20+1+r.Intn(7))
+		}
+		for _, sz := range szs {
 			q := pad(pb[:min(len(pb), 600)], sz)
 			q[sz-1] = dm[r.Intn(len(dm))]
 			x.checkQ("huge-set-one-member-last", q)
 			x.c.Inc("querysets_beyond_65536_items")
+		}
+	}
+	// members picked by the RANK of their value in the filter: positions around
+	// 2^16 and 2^17 in decoding order (internal tables and batches end there)
+	if N > 65536 {
+		byVal := map[uint64]int{}
+		for _, mi := range dm {
+			byVal[w.vals[mi]] = mi
+		}
+		for _, rank := range []int{65534, 65535, 65536, 65537, 131071, 131072, 131073, N - 1} {
+			if rank >= len(w.mvals) {
+				continue
+			}
+			mi, ok := byVal[w.mvals[rank]]
+			if !ok {
+				continue
+			}
+			x.c.Inc("queries_for_the_member_at_a_rank_around_2^16_or_2^17")
+			x.checkQ("member-by-rank", []int{mi})
+			if len(nonm) > nHost+8 {
+				pb := nonm[nHost:]
+				q := pad(pb[:min(len(pb), 600)], N/2+1+r.Intn(5))
+				q[r.Intn(len(q))] = mi
+				x.checkQ("member-by-rank-among-nonmembers", q)
+			}
 		}
 	}
 	// duplicates of a single hostile item, long enough for the hash strategy
